@@ -94,7 +94,7 @@ impl Xot {
         if self.parent(child) == Some(parent) && self.next_sibling(child).is_none() {
             return Ok(());
         }
-        self.remove_consolidate_text_nodes(self.previous_sibling(child), self.next_sibling(child));
+        self.leave_position(child);
         if self.add_consolidate_text_nodes(child, self.last_child(parent), None) {
             return Ok(());
         }
@@ -339,7 +339,7 @@ impl Xot {
         if self.parent(child) == Some(parent) && self.previous_sibling(child).is_none() {
             return Ok(());
         }
-        self.remove_consolidate_text_nodes(self.previous_sibling(child), self.next_sibling(child));
+        self.leave_position(child);
         if self.add_consolidate_text_nodes(child, None, self.first_child(parent)) {
             return Ok(());
         }
@@ -387,11 +387,8 @@ impl Xot {
         if self.previous_sibling(new_sibling) == Some(reference_node) {
             return Ok(());
         }
-        let previous_node = self.previous_sibling(new_sibling);
-        let next_node = self.next_sibling(new_sibling);
-        let reference_node = if self.remove_consolidate_text_nodes(previous_node, next_node)
-            && next_node == Some(reference_node)
-        {
+        let (previous_node, next_node, merged) = self.leave_position(new_sibling);
+        let reference_node = if merged && next_node == Some(reference_node) {
             // the reference node was the text node following the moved node
             // and has just been merged into the text node before it
             previous_node.unwrap()
@@ -419,10 +416,7 @@ impl Xot {
         if self.next_sibling(new_sibling) == Some(reference_node) {
             return Ok(());
         }
-        self.remove_consolidate_text_nodes(
-            self.previous_sibling(new_sibling),
-            self.next_sibling(new_sibling),
-        );
+        self.leave_position(new_sibling);
         if self.add_consolidate_text_nodes(
             new_sibling,
             self.previous_sibling(reference_node),
@@ -1021,6 +1015,20 @@ impl Xot {
     /// non-whitespace text.
     pub fn remove_insignificant_whitespace(&mut self, node: Node) {
         remove_insignificant_whitespace(self, node);
+    }
+
+    // Take a node out of its current position before it is moved, and
+    // consolidate the text nodes around that position. The node has to be
+    // gone before we look at the siblings of its new position: otherwise it
+    // can show up as its own neighbour there (and be consolidated with
+    // itself). Returns the siblings the node had, and whether these were
+    // merged.
+    fn leave_position(&mut self, node: Node) -> (Option<Node>, Option<Node>, bool) {
+        let previous_node = self.previous_sibling(node);
+        let next_node = self.next_sibling(node);
+        node.get().detach(self.arena_mut());
+        let merged = self.remove_consolidate_text_nodes(previous_node, next_node);
+        (previous_node, next_node, merged)
     }
 
     fn add_consolidate_text_nodes(
